@@ -61,9 +61,44 @@ theorem readFrom_never (m : Msg) (chunk : Bytes) : Alloc.realloc m (m.readFrom c
 theorem build_warm (mac : Bytes → Bytes → Bytes) (hmac : ∀ k x, (mac k x).length = 20)
     (m : Msg) (ss : List Setter) (hcap : m.len ≤ m.mem.length) (htid : m.tid.length = 12)
     (hf : AllFit mac ss m.reset.writeHeader) (h20 : 20 ≤ m.mem.length)
-    (hfits : (build mac m ss).1.len ≤ m.mem.length) : Alloc.build mac m ss = 0 := by
+    (hfits : (build mac m ss).1.len ≤ m.mem.length)
+    (hua : ∀ s ∈ ss, Alloc.setterExtra s = 0) : Alloc.build mac m ss = 0 := by
   unfold Alloc.build Alloc.realloc
-  rw [build_cap mac hmac m ss hcap htid hf h20 hfits]; simp
+  rw [build_cap mac hmac m ss hcap htid hf h20 hfits]
+  have : (ss.map Alloc.setterExtra).sum = 0 := by
+    clear hf hfits
+    induction ss with
+    | nil => rfl
+    | cons s r ih =>
+      simp only [List.map_cons, List.sum_cons]
+      rw [hua s (List.mem_cons_self ..), ih (fun x hx => hua x (List.mem_cons_of_mem _ hx))]
+  simp [this]
+
+/-- the only setter with an allocation of its own is UNKNOWN-ATTRIBUTES with more than 20 entries (F11: the code says
+    "20 should be enough"; the attribute can carry up to 32767 entries) -/
+theorem setterExtra_iff (s : Setter) :
+    Alloc.setterExtra s = 0 ↔ ∀ ts, s = .unknownAttrs ts → ts.length ≤ 20 := by
+  cases s with
+  | unknownAttrs ts =>
+    simp only [Alloc.setterExtra, Alloc.unknownAddTo, Setter.unknownAttrs.injEq, forall_eq']
+    constructor
+    · intro h
+      by_cases h20 : ts.length ≤ 20
+      · exact h20
+      · rw [if_neg h20] at h
+        by_cases h40 : ts.length ≤ 40
+        · rw [if_pos h40] at h; omega
+        · rw [if_neg h40] at h
+          by_cases h80 : ts.length ≤ 80
+          · rw [if_pos h80] at h; omega
+          · rw [if_neg h80] at h
+            by_cases h160 : ts.length ≤ 160
+            · rw [if_pos h160] at h; omega
+            · rw [if_neg h160] at h; omega
+    · intro h; rw [if_pos h]
+  | _ => simp [Alloc.setterExtra]
+
+theorem unknownAttrs_21_allocates : Alloc.setterExtra (.unknownAttrs (List.replicate 21 0)) = 1 := by decide
 
 /-- the integrity check allocates exactly when the attribute is present and fewer than 20 bytes are spare -/
 theorem integrityCheck_alloc_iff (m : Msg) :
